@@ -46,7 +46,7 @@ Definition flag_bytes (f : sysflag) : bytes :=
 (* "bcc" "cc" "from" "subject" "to" *)
 Definition field_bytes (h : hfield) : bytes :=
   match h with
-  | HBcc => [98;99] | HCc => [99;99] | HFrom => [102;114;111;109]
+  | HBcc => [98;99;99] | HCc => [99;99] | HFrom => [102;114;111;109]
   | HSubject => [115;117;98;106;101;99;116] | HTo => [116;111]
   end%N.
 
